@@ -1,0 +1,153 @@
+//! Verification hook (feature `verif-hooks`, only under `cfg(all(test, loom))`).
+//!
+//! Drives `MuxStream::poll_obtain_write_permission` against
+//! `EstablishedStreamData::{acknowledge, disallow_write}` on loom threads, so that loom enumerates
+//! the interleavings of the real code at the granularity of individual atomic operations, and
+//! appends one JSON line per execution (what every call returned, whether the writer's waker was
+//! woken, the final credit) to the file named by `VERIF_WAKE_OUT`. The lines are judged outside
+//! this crate against a TLA+ specification of the writer/credit contract; this module asserts
+//! nothing itself.
+//
+// SPDX-License-Identifier: Apache-2.0 OR GPL-3.0-or-later
+
+use crate::EstablishedStreamData;
+use crate::loom::{Arc, AtomicBool, AtomicU32, AtomicWaker, Ordering};
+use crate::stream::MuxStream;
+use alloc::format;
+use alloc::string::String;
+use alloc::vec::Vec;
+use bytes::Bytes;
+use core::task::{Context, Poll};
+use std::io::Write;
+use tokio::sync::mpsc;
+
+/// A waker that counts how often it is woken (plain std atomics: it is not part of the code under test)
+struct CountingWaker(std::sync::atomic::AtomicUsize);
+impl std::task::Wake for CountingWaker {
+    fn wake(self: std::sync::Arc<Self>) {
+        self.0.fetch_add(1, std::sync::atomic::Ordering::SeqCst);
+    }
+    fn wake_by_ref(self: &std::sync::Arc<Self>) {
+        self.0.fetch_add(1, std::sync::atomic::Ordering::SeqCst);
+    }
+}
+
+fn pair(credit: u32) -> (MuxStream, EstablishedStreamData) {
+    let (rx_frame_tx, rx_frame_rx) = mpsc::channel(4);
+    let (tx_msg_tx, _tx_msg_rx) = mpsc::unbounded_channel();
+    let (dropped_flows_tx, _) = mpsc::unbounded_channel();
+    let finish_sent = Arc::new(AtomicBool::new(false));
+    let psh_send_remaining = Arc::new(AtomicU32::new(credit));
+    let writer_waker = Arc::new(AtomicWaker::new());
+    let data = EstablishedStreamData {
+        sender: Some(rx_frame_tx),
+        finish_sent: finish_sent.clone(),
+        psh_send_remaining: psh_send_remaining.clone(),
+        writer_waker: writer_waker.clone(),
+    };
+    let stream = MuxStream {
+        rx_frame_rx,
+        flow_id: 1,
+        dest_host: Bytes::new(),
+        dest_port: 0,
+        finish_sent,
+        psh_send_remaining,
+        psh_recvd_since: 0,
+        writer_waker,
+        buf: Bytes::new(),
+        tx_msg_tx,
+        dropped_flows_tx,
+        rwnd_threshold: 1,
+    };
+    (stream, data)
+}
+
+fn res(p: Poll<Option<()>>) -> &'static str {
+    match p {
+        Poll::Pending => "pending",
+        Poll::Ready(Some(())) => "ok",
+        Poll::Ready(None) => "broken",
+    }
+}
+
+fn emit(line: &str) {
+    if let Ok(path) = std::env::var("VERIF_WAKE_OUT") {
+        if let Ok(mut f) = std::fs::OpenOptions::new().create(true).append(true).open(path) {
+            let _ = writeln!(f, "{line}");
+        }
+    }
+}
+
+/// One scenario: `polls` writer polls on one thread against the given task-side operations
+/// (`a` = acknowledge(1), `c` = disallow_write) on another, starting with `credit` units.
+fn scenario(name: &'static str, credit: u32, polls: usize, task_ops: &'static str) {
+    loom::model(move || {
+        let (stream, data) = pair(credit);
+        let stream = Arc::new(stream);
+        let wk = std::sync::Arc::new(CountingWaker(std::sync::atomic::AtomicUsize::new(0)));
+        let writer = {
+            let stream = stream.clone();
+            let wk = wk.clone();
+            loom::thread::spawn(move || {
+                let waker = std::task::Waker::from(wk);
+                let cx = Context::from_waker(&waker);
+                let mut out = Vec::new();
+                for _ in 0..polls {
+                    out.push(res(stream.poll_obtain_write_permission(&cx)));
+                }
+                out
+            })
+        };
+        let task = loom::thread::spawn(move || {
+            for op in task_ops.chars() {
+                match op {
+                    'a' => data.acknowledge(1),
+                    'c' => {
+                        data.disallow_write();
+                    }
+                    _ => {}
+                }
+            }
+            data
+        });
+        let results = writer.join().unwrap();
+        let data = task.join().unwrap();
+        let woken = wk.0.load(std::sync::atomic::Ordering::SeqCst);
+        // after everything has happened: what does a fresh poll say, and what is left
+        let waker = std::task::Waker::from(wk.clone());
+        let cx = Context::from_waker(&waker);
+        let after = res(stream.poll_obtain_write_permission(&cx));
+        let credit_final = data.psh_send_remaining.load(Ordering::Acquire);
+        let closed = data.finish_sent.load(Ordering::Acquire);
+        let rs: Vec<String> = results.iter().map(|r| format!("\"{r}\"")).collect();
+        emit(&format!(
+            "{{\"sc\":\"{name}\",\"credit\":{credit},\"ops\":\"{task_ops}\",\"polls\":[{}],\"woken\":{woken},\"after\":\"{after}\",\"credit_final\":{credit_final},\"closed\":{closed}}}",
+            rs.join(",")
+        ));
+    });
+}
+
+#[test]
+fn verif_wake_ack() {
+    scenario("ack", 0, 1, "a");
+}
+#[test]
+fn verif_wake_close() {
+    scenario("close", 0, 1, "c");
+}
+#[test]
+fn verif_wake_ack_close() {
+    scenario("ack_close", 0, 1, "ac");
+}
+#[test]
+fn verif_wake_two_acks() {
+    scenario("two_acks", 0, 2, "aa");
+}
+#[test]
+fn verif_wake_credit_race() {
+    scenario("credit_race", 1, 2, "a");
+}
+#[test]
+fn verif_wake_credit_close() {
+    scenario("credit_close", 1, 2, "c");
+}
